@@ -96,6 +96,10 @@ func (c *fctx) callTerm(call *ast.CallExpr) callOut {
 				co.writeback = append(co.writeback, lv)
 			}
 		}
+		if ci.usesPrims {
+			c.fi.usesPrims = true
+			args = append([]string{"P"}, args...)
+		}
 		co.term = c.t.qual(c.fi, ci) + " " + strings.Join(args, " ")
 		return co
 	}
@@ -106,6 +110,10 @@ func (c *fctx) callTerm(call *ast.CallExpr) callOut {
 				d := c.t.dispatcher(c, in, callee, call)
 				v, lv := c.argValue(recvExpr, nil)
 				args := []string{v}
+				if d.usesPrims {
+					c.fi.usesPrims = true
+					args = []string{"P", v}
+				}
 				if d.mutRecv {
 					co.writeback = append(co.writeback, lv)
 				}
@@ -171,8 +179,9 @@ func (c *fctx) useCall(call *ast.CallExpr, co callOut, catchErr bool) []string {
 }
 
 type dispInfo struct {
-	lean    string
-	mutRecv bool
+	lean      string
+	mutRecv   bool
+	usesPrims bool
 }
 
 func (t *translator) dispatcher(c *fctx, in *types.Named, m *types.Func, at ast.Node) *dispInfo {
@@ -255,7 +264,17 @@ func (t *translator) mkDispatcher(in *types.Named, m *types.Func, emitDep func(*
 	}
 	var sb strings.Builder
 	lean := iname + "." + san(m.Name())
-	fmt.Fprintf(&sb, "/-- dynamic dispatch of `%s.%s` -/\ndef %s (self : %s)", in.Obj().Name(), m.Name(), lean, iname)
+	anyPrims := false
+	for _, ci := range impls {
+		if ci.usesPrims {
+			anyPrims = true
+		}
+	}
+	pdecl := ""
+	if anyPrims {
+		pdecl = " (P : Prims)"
+	}
+	fmt.Fprintf(&sb, "/-- dynamic dispatch of `%s.%s` -/\ndef %s%s (self : %s)", in.Obj().Name(), m.Name(), lean, pdecl, iname)
 	var argNames []string
 	for i := 0; i < sig.Params().Len(); i++ {
 		lt, err := t.leanType(sig.Params().At(i).Type())
@@ -270,6 +289,9 @@ func (t *translator) mkDispatcher(in *types.Named, m *types.Func, emitDep func(*
 	for k, ci := range impls {
 		cname := san(t.ifaceImpl[in][k].Obj().Name())
 		callT := ci.leanName + " v " + strings.Join(argNames, " ")
+		if ci.usesPrims {
+			callT = ci.leanName + " P v " + strings.Join(argNames, " ")
+		}
 		implMut := ci.recv != nil && ci.mutated[ci.recv]
 		nc := nres
 		if implMut {
@@ -292,7 +314,7 @@ func (t *translator) mkDispatcher(in *types.Named, m *types.Func, emitDep func(*
 		}
 		fmt.Fprintf(&sb, "  | .%s v => (%s) >>= fun r => Res.ok %s\n", cname, strings.TrimSpace(callT), tupleVal(vals))
 	}
-	d := &dispInfo{lean: lean, mutRecv: mut}
+	d := &dispInfo{lean: lean, mutRecv: mut, usesPrims: anyPrims}
 	t.disp[key] = d
 	return d, sb.String(), nil
 }
